@@ -88,6 +88,16 @@ func (c *RawHTTPResponder) Write(status int, body io.Reader) (written int64, err
 	resp.Body = io.NopCloser(countingreader.New(body, &read))
 	resp.StatusCode = status
 	c.parseAndSetContentLength()
+	bodyForbidden := status == http.StatusNoContent || status == http.StatusNotModified || (status >= 100 && status < 200)
+	if body == http.NoBody || bodyForbidden {
+		// Headers only (answer to HEAD, or a status that never has a body). Tell http.Response.Write so,
+		// otherwise it writes the terminating chunk of an unknown-length body, which the client reads
+		// as the start of the next response on the tunnel.
+		resp.Request = &http.Request{Method: http.MethodHead}
+	}
+	if bodyForbidden {
+		resp.ContentLength = 0 // no Transfer-Encoding either
+	}
 
 	return int64(read), c.writeResponse()
 }
